@@ -255,6 +255,8 @@ func (cc *ClientConn) newStream(
 	err = rw.Write(ctx, &rpc)
 	if err != nil {
 		log.Error().Err(err).Msg("NewStream: failed to open")
+		// The stream never came to be: release its registration.
+		teardown()
 		return nil, err
 	}
 
